@@ -49,6 +49,10 @@ impl<S: Clone + Debug> SymbolTable<S> {
         self.graph.node_indices()
     }
 
+    pub fn node_count(&self) -> usize {
+        self.graph.node_count()
+    }
+
     pub fn get(&self, nx: SymbolIndex) -> &Option<S> {
         &self.graph[nx].data
     }
